@@ -234,6 +234,9 @@ def befores(rng, impl, ti, parent_path, *, malformed=False):
         if len(impl.trees) > 1 and paths_of(impl.trees[1 - ti if ti < 2 else 0]):
             ot = 1 - ti if ti < 2 else 0
             c.append({"path": rng.choice(paths_of(impl.trees[ot])), "ft": ot})
+        if impl.graveyard:
+            # a stale reference: a node that was removed earlier (by remove, remove_children, clear, filter, del)
+            c += [{"dead": rng.randrange(len(impl.graveyard))}] * 3
     return c
 
 
@@ -381,6 +384,8 @@ def random_op(rng, impl, ti, *, labels, malformed=0.1, typed=False, ops=None, di
             c += [7, {"path": n}]
             if paths:
                 c.append({"path": rng.choice(paths)})
+            if impl.graveyard:
+                c += [{"dead": rng.randrange(len(impl.graveyard))}] * 3
         op["before"] = rng.choice(c)
         if mal and len(impl.trees) > 1 and rng.random() < 0.3:
             op["cross"] = True
